@@ -6,9 +6,11 @@ package cmd
 import (
 	"encoding/json"
 	"fmt"
+	"io/fs"
 	"math"
 	"os"
 	"path"
+	"path/filepath"
 	"runtime/debug"
 	"sync"
 	"time"
@@ -71,7 +73,7 @@ func newGenerateCommand() *cobra.Command {
 			completedChannel := make(chan error)
 			go dedupLoop(configOverrides, watcher, completedChannel)
 
-			err = watcher.Add(".")
+			err = watchTree(watcher, ".")
 			if err != nil {
 				log.Fatal().Err(err).Msg("")
 			}
@@ -86,6 +88,23 @@ func newGenerateCommand() *cobra.Command {
 	cmd.Flags().BoolVarP(&flags.watch, "watch", "w", false, "Regenerate code whenever a file in the current directory changes.")
 
 	return cmd
+}
+
+// watchTree watches dir and its subdirectories: the model files of a package are read from
+// all of them, and a watch on a directory does not cover the directories below it.
+func watchTree(w *fsnotify.Watcher, dir string) error {
+	return filepath.WalkDir(dir, func(p string, d fs.DirEntry, err error) error {
+		if err != nil {
+			if p == dir {
+				return err
+			}
+			return nil
+		}
+		if d.IsDir() {
+			return w.Add(p)
+		}
+		return nil
+	})
 }
 
 // dedup fsnotify events
@@ -114,8 +133,8 @@ func dedupLoop(configArgs map[string]string, w *fsnotify.Watcher, completedChann
 			// Adding a directory that is already watched changes nothing. (Comparing the number of
 			// directories with the length of the watch list, which includes ".", left a single
 			// imported package unwatched.)
-			for _, dir := range dirsToWatch {
-				if err := w.Add(dir); err != nil {
+			for _, dir := range append([]string{"."}, dirsToWatch...) {
+				if err := watchTree(w, dir); err != nil {
 					completedChannel <- err
 					return
 				}
